@@ -11,6 +11,8 @@ mp = os.path.join(d, "meta.json")
 meta = json.load(open(mp))
 pid = meta["property"]
 checks = [pid] + [c for c in extra if c != pid]
+if os.environ.get("REDETECT_ONLY"):      # only the extra checks (the own check's result is kept)
+    checks = [c for c in extra]
 old_caught = list(meta.get("caught_by", []))
 if isinstance(old_caught, str):
     old_caught = eval(old_caught)
